@@ -14,6 +14,7 @@ import (
 	"errors"
 	"fmt"
 	"io"
+	"strings"
 	"testing"
 
 	"github.com/spf13/afero"
@@ -354,6 +355,39 @@ func checkCase(c Case) error {
 				}
 			}
 		}
+		// the same for an image that carries two signatures the certificate verifies: a read that failed while the first
+		// one was being checked is a failed verification, whatever the second one would say
+		if _, err := bin.Sign(key, id.Cert); err != nil {
+			return fmt.Errorf("bad case: second Sign: %v", err)
+		}
+		signed2 := bin.Bytes()
+		probe := &faultReaderAt{data: signed2}
+		pp, err := authenticode.Parse(probe)
+		if err != nil {
+			return fmt.Errorf("bad case: Parse of the twice-signed image: %v", err)
+		}
+		before := probe.calls
+		if ok, err := pp.Verify(id.Cert); !ok || err != nil {
+			return fmt.Errorf("bad case: Verify of the twice-signed image: %v %v", ok, err)
+		}
+		nVerify2 := probe.calls - before
+		points = append(points, tally{"Verify(two signatures)/reader", nVerify2})
+		for _, kind := range []string{"error", "short"} {
+			// reads that the fault-free run does not issue (a second pass over the image) are covered too
+			for k := 1; k <= 2*nVerify2; k++ {
+				fault("Verify(two signatures)/reader", k, kind)
+				r := &faultReaderAt{data: signed2}
+				p, err := authenticode.Parse(r)
+				if err != nil {
+					return fmt.Errorf("bad case: Parse of the twice-signed image: %v", err)
+				}
+				r.failAt, r.kind = r.calls+k, kind
+				ok, err := p.Verify(id.Cert)
+				if r.fired && (ok || err == nil) {
+					return fmt.Errorf("Verify of an image with two signatures: read %d of the image failed (%s) but Verify returned (%v, %v)", k, kind, ok, err)
+				}
+			}
+		}
 	}
 
 	// ---- D. file system -----------------------------------------------------------------------
@@ -436,7 +470,9 @@ func checkCase(c Case) error {
 					at = e
 				}
 			}
-			kinds := []string{"error"}
+			// the plain sentinel, and errno values the way the os package reports them ("try again" ones included:
+			// a failed call is a failed operation whatever the reason)
+			kinds := []string{"error", "error:EINTR", "error:EAGAIN", "error:ENOSPC"}
 			if at.Op == "File.Write" || at.Op == "File.Read" {
 				kinds = append(kinds, "short")
 			}
@@ -450,6 +486,9 @@ func checkCase(c Case) error {
 				fault(op.name+"/"+at.Op, k, kind)
 				rec := mk()
 				rec.Fault = recfs.Fault{At: k, Kind: kind}
+				if strings.HasPrefix(kind, "error:") {
+					rec.Fault = recfs.Fault{At: k, Kind: "error", Cause: strings.TrimPrefix(kind, "error:")}
+				}
 				okv, err := op.run(rec)
 				if !rec.Fired {
 					continue
